@@ -219,6 +219,44 @@ func checkDecoder(p *core.Prog, r *core.Report, rel, fnName string, msg *types.N
 		r.Check(bad == "", "C18.R1", construct, desc, bad, p.Pos(dc.Pos))
 		delete(byNum, sf.Num)
 	}
+	// a field's case decodes the field whenever its tag is met: no `continue` (of the decoding loop) inside a case — a
+	// conditional skip (e.g. "empty message, nothing to decode") drops the PRESENCE of the field, which the standard
+	// decoder keeps (an empty sub-message decodes to a non-nil empty message)
+	for _, dc := range table {
+		var skips []token.Pos
+		var visit func(n ast.Node, inLoop bool)
+		visit = func(n ast.Node, inLoop bool) {
+			ast.Inspect(n, func(x ast.Node) bool {
+				switch y := x.(type) {
+				case *ast.ForStmt:
+					if y != n {
+						visit(y.Body, true)
+						return false
+					}
+				case *ast.RangeStmt:
+					if y != n {
+						visit(y.Body, true)
+						return false
+					}
+				case *ast.FuncLit:
+					return false
+				case *ast.BranchStmt:
+					if (y.Tok == token.CONTINUE && (!inLoop || y.Label != nil)) || y.Tok == token.GOTO {
+						skips = append(skips, y.Pos())
+					}
+				}
+				return true
+			})
+		}
+		for _, st := range dc.Clause.Body {
+			visit(st, false)
+		}
+		d := ""
+		if len(skips) > 0 {
+			d = "the case can skip to the next field at " + p.Pos(skips[0])
+		}
+		r.Check(len(skips) == 0, "C18.R1", fmt.Sprintf("%s/case%d/no-skip", fnName, dc.Num), "the case decodes and assigns its field on every input that carries the tag (no `continue` out of the case: presence of an empty value is kept)", d, p.Pos(dc.Pos))
+	}
 	for n, dc := range byNum {
 		r.Fail("C18.R1", fmt.Sprintf("%s/case%d/extra", fnName, n), "the decoder has no case for a field number absent from the schema", fmt.Sprintf("case %d assigns %v", n, dc.Fields), p.Pos(dc.Pos))
 	}
